@@ -54,13 +54,16 @@ def Cmd.render (c : Cmd) : List Arg :=
 
 def plainArg (a : Arg) : Bool := !a.isEmpty && !isSingleDash a && !tddaSpellings.contains a
 
-/-- well-formed command line: a program name; clusters are non-empty, contain no `-`, and are not
-    the spellings `-w` / `-wquiet`; foreign arguments and kinds are plain; each tdda long option is
+/-- well-formed command line: a program name; clusters are non-empty, contain no `-`, and what is
+    left of them once W / 1 / 0 are taken out is not the spelling `-w` / `-wquiet` (`-w1` IS read as
+    the write option followed by nothing tagged-related: outside the documented spellings); foreign arguments and kinds are plain; each tdda long option is
     given at most once (in either spelling); kinds are present if a write option is. -/
 def Cmd.WF (c : Cmd) : Bool :=
   plainArg c.prog &&
   c.toks.all (fun t => match t with
-    | .cluster ls => !ls.isEmpty && !ls.contains '-' && ('-' :: ls) != write1 && ('-' :: ls) != wquiet1
+    | .cluster ls =>
+      let r := ls.filter (fun c => !(c == 'W' || c == '1' || c == '0'))
+      !ls.isEmpty && !ls.contains '-' && ('-' :: r) != write1 && ('-' :: r) != wquiet1
     | .other a => plainArg a
     | _ => true) &&
   (c.toks.filter (· == .tagged)).length ≤ 1 &&
